@@ -20,7 +20,7 @@ class Case:
         self.err = ""
 
     def replay_text(self):
-        blob = {"label": self.label, "class": self.cls, "expect": self.expect,
+        blob = {"label": self.label, "class": self.cls, "expect": self.expect, "sidx": self.sidx, "meta": self.meta,
                 "streams": [{"relpath": s.relpath, "json": s.json_text(), "obs": s.obs().hex()}
                             for s in self.tr.materialise()]}
         return "#replay " + json.dumps(blob) + "\n" + self.tr.describe()
@@ -243,8 +243,7 @@ def load_replay(path):
                 s.raw_json = sd["json"]
                 s.raw_obs = bytes.fromhex(sd["obs"])
                 tr.add(s, [])
-            cases.append(Case(blob["class"], blob["label"], tr, expect=blob["expect"],
-                              sidx=0 if blob["class"] in ("header", "trunc-last", "trunc-mid", "swap") else None))
+            cases.append(Case(blob["class"], blob["label"], tr, expect=blob["expect"], sidx=blob.get("sidx")))
     return cases
 
 
